@@ -6,7 +6,9 @@ from ..proj import proj
 
 ID = "C13"
 LEVEL = "model_checking"
-RULE = ("Every generated block (logic.adder all widths 1..16, 31..33, 63, 64 x carry_in x carry_out; mux widths 1..17, 32, 33; "
+RULE = ("MC: the as-built generator models (CGLogic: the API-call sequences of circuitgraph.logic run on the API model CGApi) "
+        "are evaluated on all input vectors for adder w<=3, mux w<=5, popcount w<=6 (MCLogic); every real block with w<=3 is "
+        "compared with the model's block (MODEL-DRIFT if different). Every generated block (logic.adder all widths 1..16, 31..33, 63, 64 x carry_in x carry_out; mux widths 1..17, 32, 33; "
         "popcount widths 1..16, 31..33, 64; half_adder; full_adder) is evaluated by TLC from its recorded structure: on ALL "
         "input vectors when it has <= 11 inputs (exhaustive), else on recorded corner vectors (zeros, ones, walking one/zero "
         "per select code) plus seeded random vectors; the reference is arithmetic on bit sequences in the specification. "
@@ -20,7 +22,7 @@ def config(tier):
     return {
         "hashseeds": [0] if q else [0, 1, 2, 3],
         "families": [],
-        "mc": [],
+        "mc": [{"module": "MCLogic", "cfg": "MCLogic", "workers": 4, "timeout": 900}],
         "shards": 8 if q else 16,
         "negctl": 12,
     }
